@@ -170,6 +170,64 @@ INNER_ALT_2D = {'collab_pls': ['arpls', 'pspline_asls'], 'adaptive_minmax': ['im
 CLASSIFICATION = ('dietrich', 'golotvin', 'std_distribution', 'fastchrom', 'cwt_br', 'fabc', 'rubberband')
 
 
+# data kinds chosen to reach rarely taken, data-dependent branches of the bodies (early returns when nothing /
+# everything is classified as baseline, loops that stop at once, empty peak lists, ...)
+Y_KINDS = ('line', 'quad', 'const', 'zeros', 'sine', 'blank', 'blank', 'step', 'spikes', 'allpeaks', 'negative', 'peaks')
+# extreme option values, applied when the method has the parameter
+BRANCH_VALUES = {
+    'num_std': [0.0, 1e-3, 10.0, 1e3], 'threshold': [1e-12, 1e12], 'min_length': [1, 2, 10 ** 6],
+    'max_iter': [0, 1, 2, 60], 'max_iter_2': [0, 1], 'tol': [0.0, 1e300], 'tol_2': [0.0, 1e300], 'tol_3': [0.0, 1e300],
+    'interp_half_window': [0, 1, 50], 'smooth_half_window': [0, 1, 30], 'half_window': [1, 2, 19],
+    'sections': [1, 2, 40], 'poly_order': [0, 1, 5], 'min_fwhm': [1, 30], 'num_bins': [2, 500], 'sigma': [1e-6, 50.0],
+    'scale': [1, 6], 'peak_ratio': [0.01, 0.99], 'quantile': [1e-3, 0.999], 'p': [1e-9, 0.5, 1 - 1e-9],
+    'k': [1e-9, 1e9], 'lam': [1e-8, 1e12], 'lam_1': [1e-12, 1e6], 'lam_smooth': [1e-8, 1e8], 'eta': [0.0, 1.0],
+    'fraction': [0.05, 1.0], 'delta': [0.0, 1e9], 'total_points': [2, 3], 'use_threshold': [True], 'use_original': [True],
+    'mask_initial_peaks': [True, False], 'weights_as_mask': [True], 'symmetric': [True], 'symmetric_weights': [True],
+    'return_coef': [True], 'conserve_memory': [False], 'robust_opening': [False], 'fit_parabola': [False],
+    'original_criteria': [True], 'normalize_weights': [True, False], 'decreasing': [True], 'filter_order': [2, 8],
+    'max_half_window': [1, 19], 'min_half_window': [1, 10], 'fill_half_window': [0, 10], 'num_smooths': [0, 3],
+    'asymmetric_coef': [1e-6, 1e3], 'alpha_factor': [0.01, 1.0], 'cost_function': ['s_huber', 'a_indec', 'asymmetric_huber'],
+    'diff_order': [1, 3], 'num_knots': [2, 30], 'spline_degree': [1, 5], 'max_cross': [0, 1], 'return_dof': [True],
+    'eps': [1e-12, 1.0], 'side': ['left', 'right'], 'average_dataset': [False], 'constrained_fraction': [0.0, 0.5],
+    'estimation_poly_order': [0, 4], 'sampling': [1, 7], 'min_value': [1], 'max_value': [1, 3], 'step': [0, 1],
+    'freq_cutoff': [0.01, 0.4], 'asymmetry': [1.0, 20.0], 'filter_type': [1, 2], 'lam_0': [1e-6, 10.0], 'lam_2': [1e-6, 10.0],
+}
+BRANCHY_METHODS = ('dietrich', 'golotvin', 'std_distribution', 'fastchrom', 'cwt_br', 'fabc', 'rubberband', 'mpls',
+                   'pspline_mpls', 'airpls', 'pspline_airpls', 'drpls', 'pspline_drpls', 'iarpls', 'pspline_iarpls',
+                   'aspls', 'pspline_aspls', 'brpls', 'pspline_brpls', 'lsrpls', 'pspline_lsrpls', 'arpls',
+                   'pspline_arpls', 'goldindec', 'imodpoly', 'modpoly', 'loess', 'swima', 'snip', 'ipsa', 'ria',
+                   'peak_filling', 'corner_cutting', 'mixture_model', 'jbcd', 'amormol', 'mormol', 'imor', 'beads',
+                   'custom_bc', 'optimize_extended_range', 'adaptive_minmax', 'collab_pls')
+
+
+def shape_y(kind, y, t, rs):
+    """data of the requested kind on the normalised abscissa t (same shape as y)"""
+    if kind == 'line':
+        return 3.0 + 2.0 * t
+    if kind == 'quad':
+        return 1.0 + 2.0 * t + 3.0 * t * t
+    if kind == 'const':
+        return np.full(y.shape, 5.0)
+    if kind == 'zeros':
+        return np.zeros(y.shape)
+    if kind == 'sine':
+        return 5.0 + np.sin(2.0 * t)
+    if kind == 'blank':
+        return 5.0 + 0.05 * rs.standard_normal(y.shape)
+    if kind == 'step':
+        return np.where(t < 0.5, 1.0, 4.0) + 0.01 * rs.standard_normal(y.shape)
+    if kind == 'spikes':
+        out = 5.0 + 0.01 * rs.standard_normal(y.shape)
+        flat = out.reshape(-1)
+        flat[::7] += 50.0
+        return out
+    if kind == 'allpeaks':
+        return 5.0 + 40.0 * np.abs(np.sin(25.0 * t)) + rs.standard_normal(y.shape)
+    if kind == 'negative':
+        return -y
+    return y
+
+
 def sig_params(name, two_d):
     from pybaselines import Baseline, Baseline2D
     return inspect.signature(getattr(Baseline2D if two_d else Baseline, name)).parameters
@@ -180,7 +238,7 @@ def build_case(rng, two_d, name, mode):
     params = sig_params(name, two_d)
     c = {'two_d': two_d, 'method': name, 'seed': rng.randrange(10 ** 6), 'mode': mode,
          'n': rng.choice([31, 40, 47]) if not two_d else rng.choice([12, 14]), 'm': rng.choice([11, 13]),
-         'data': 'c', 'x': 'sorted', 'xlay': 'c', 'args': {}, 'raise_at': None, 'extra': {}}
+         'data': 'c', 'x': 'sorted', 'xlay': 'c', 'args': {}, 'raise_at': None, 'extra': {}, 'ykind': 'peaks'}
     lay = LAYOUTS_2D if two_d else LAYOUTS_1D
     arr_lay = ['c', 'strided', 'list', 'int', 'f32', 'ro'] + ([] if two_d else ['col', 'neg'])
     if mode == 'layout':
@@ -216,6 +274,25 @@ def build_case(rng, two_d, name, mode):
         alts = (INNER_ALT_2D if two_d else INNER_ALT_1D).get(name, [])
         if alts and rng.random() < 0.6 and mode != 'base':
             c['extra']['method'] = rng.choice(alts)
+    if mode == 'branch':
+        # float64 data that the body receives as a view of the caller's array; data kind and option values that
+        # drive the body into its rarely taken branches
+        c['ykind'] = rng.choice(Y_KINDS)
+        c['data'] = rng.choice(['c', 'c', 'c', 'strided', 'col'] if not two_d else ['c', 'c', 'strided'])
+        c['x'] = rng.choice(['sorted', 'sorted', 'none'])
+        c['xlay'] = rng.choice(['c', 'c', 'strided'])
+        for p in list(c['args']):
+            if p in ('weights', 'alpha') and rng.random() < 0.5:
+                del c['args'][p]
+            elif p in ('weights', 'alpha'):
+                c['args'][p] = rng.choice(['c', 'c', 'strided', 'bool' if name in CLASSIFICATION and p == 'weights' else 'c'])
+        cands = [p for p in params if p in BRANCH_VALUES and p not in c['args']
+                 and not (p == 'alpha' and name in ('aspls', 'pspline_aspls'))
+                 and not (p in ('lam', 'diff_order') and name == 'custom_bc')
+                 and not (two_d and p in ('half_window', 'smooth_half_window', 'max_half_window') )]
+        rng.shuffle(cands)
+        for p in cands[:rng.choice([0, 1, 1, 2, 3])]:
+            c['extra'][p] = rng.choice(BRANCH_VALUES[p])
     if mode == 'raise':
         c['raise_at'] = rng.choice([1, 1, 2, 3, 5])
     if mode == 'param':
@@ -245,6 +322,7 @@ def materialise(c):
     if not two_d:
         x = M.make_x(rs, n)
         y = M.make_y(rs, x)
+        y = shape_y(c.get('ykind', 'peaks'), y, (x - x[0]) / (x[-1] - x[0]), rs)
         perm = rs.permutation(n) if c['x'] == 'unsorted' else np.arange(n)
         if c['x'] != 'none':
             ctor['x_data'] = lay1(x[perm], c['xlay'] if c['xlay'] != 'int' else 'c')
@@ -255,6 +333,9 @@ def materialise(c):
         shape = (n,)
     else:
         x, z, y = M.make_z2d(rs, m, n)
+        tx = ((x - x[0]) / (x[-1] - x[0]))[:, None]
+        tz = ((z - z[0]) / (z[-1] - z[0]))[None, :]
+        y = shape_y(c.get('ykind', 'peaks'), y, 0.6 * tx + 0.4 * tz + 0.0 * y, rs)
         px = rs.permutation(m) if c['x'] == 'unsorted' else np.arange(m)
         pz = rs.permutation(n) if c['x'] == 'unsorted' and c['seed'] % 2 else np.arange(n)
         if c['x'] != 'none':
@@ -763,7 +844,7 @@ def seq_param_cases(ctx):
 
 def search(ctx, budget):
     rng = ctx.rng
-    modes = ['base', 'layout', 'layout', 'raise', 'param']
+    modes = ['base', 'layout', 'layout', 'raise', 'param', 'branch', 'branch']
     reps = budget
     n0 = len(ctx.violations) + len(ctx.known_hit)
     for two_d in (False, True):
@@ -777,6 +858,14 @@ def search(ctx, budget):
                         ctx.note(f'oracle harness error on {name}: {type(exc).__name__}: {exc}')
                     if len(ctx.samples) < 4 and mode == 'layout':
                         ctx.sample({k: c[k] for k in ('two_d', 'method', 'data', 'x', 'xlay', 'args', 'raise_at')})
+            # methods with data-dependent early returns / many branches: more branch cases
+            if name in BRANCHY_METHODS:
+                for _ in range((6 if name in CLASSIFICATION else 3) * reps):
+                    c = build_case(rng, two_d, name, 'branch')
+                    try:
+                        check_case(ctx, c, 'oracle:branch')
+                    except Exception as exc:   # noqa
+                        ctx.note(f'oracle harness error on {name}: {type(exc).__name__}: {exc}')
             # a second call on the same fitter object (self.x may be a view of the caller's x)
             c = build_case(rng, two_d, name, 'layout')
             c['twice'] = True
@@ -801,7 +890,8 @@ Eval vm_compute in (failures bodies).
 def run(ctx):
     ctx.rule = ('cases: one call of a public method with caller-owned objects in a chosen layout; canonical form = the full case '
                 'description (method, 1-D/2-D, data layout, x sorted/unsorted/absent and its layout, layout of every optional '
-                'array/dict argument, injected raise position, parameter variation); non-trivial = at least one optional '
+                'array/dict argument, injected raise position, parameter variation, data kind and extreme option values of the '
+                'branch-forcing cases); non-trivial = at least one optional '
                 'array/dict argument given or a non-default layout / x order; alias cases: distinct (setup, flags, input '
                 'descriptor) tuples observed at the patched _setup_* boundaries')
     ctx.trusted += [
